@@ -979,7 +979,7 @@ def run(rep, tier):
     rep.assume('CONTRACT A as used (statement): skip_leading_zeroes consumes the maximal prefix of \'0\' bytes; accum_coeff consumes the maximal prefix of k ASCII digits and leaves '
                '*coeff = (*coeff * 10^k + value of these digits) folded with the arithmetic its body uses (all multiply / add steps wrapping_* -> modulo 2^128, all saturating_* -> min(.., 2^128-1); read off the MIR, '
                'anything else fails the check), returning k; accum_exp likewise, exact for at most 2 digits. The SWAR digit test / conversion (chunk_contains_8_digits, chunk_to_u64) is inside this contract.')
-    rep.assume('NOT decided: contract A itself; whether a literal with a zero coefficient and an exponent beyond 38 (99) should be accepted (it is rejected)')
+    rep.assume('NOT decided: whether a literal with a zero coefficient and an exponent beyond 38 (99) should be accepted (it is rejected); the two trusted steps named above (step-wise fold = fold of the numeral; byte order of the unaligned little-endian read)')
     rep.explanation = ('Clauses decided: (1) no panic and no out-of-bounds read; (2) under contract A, the magnitude of the result: with D the literal\'s digits read as one number and k the number of fractional digits, '
                        'every Ok((c, e)) path of str_to_dec has c = +-D with D <= i128::MAX implied by the path and e = +-(explicit exponent) - k; every Err(InternalOverflow) path implies D > i128::MAX '
                        '(so an accumulation that overflowed is never accepted and a coefficient that fits is never rejected as overflow); the post-processing of (c, e) into a Decimal is C18\'s oracle A.10; '
